@@ -15,6 +15,30 @@ CHECKS = {
     ),
 }
 
+
+_SOLVER_TECH = "TLC model checking of the exact GF(5039^2) solver model (spec/Solver.tla, MCSolver.tla, family %s) + replay of every TLC-enumerated configuration on the real solver + TLC trace validation (spec/TraceSolver.tla) of the stage events recorded during the replays"
+_SOLVER_NOTE = "Assumes: the checked identities are polynomial in (source, per-mode transfer) so exactness over GF(p^2) transfers to the complex numbers (Schwartz-Zippel, field size 2.5e7); padded size <= 10 per axis and nz <= 5 in TLC (the code has no size-dependent branch other than parity and the clamp, both inside the bounds); the boundary square root / analytic exponential are uninterpreted conjugation-equivariant functions; the model was shown to reproduce the pinned commit's failure sets exactly (harness/faithful.py); floating-point comparison at 1e-10 (double) / 2e-4 (single) relative, bit-identical where the property says exactly."
+CHECKS.update({
+    "C03": dict(technique=_SOLVER_TECH % "conserve",
+        text="TLC checks MeanFlux (mean flux at every level = mean source, footprint weights sum to one), MeanConc (mean concentration = background - mean flux x trapezoidal resistance to the labelled height) and HaloIsPadding (a halo equals explicit zero padding by floor(halo/dx), floor(halo/dy) cells, enlarging the domain, cropping) exactly on the field model for all configurations in the bounds, numerical and analytic; each configuration is replayed on the real solver (means to 1e-10, halo-vs-padding field comparison) and its stage events are validated against the specification.",
+        note=_SOLVER_NOTE, design="4/C03"),
+    "C04": dict(technique=_SOLVER_TECH % "linear",
+        text="TLC checks superposition for three coefficient pairs on pseudo-random sources, that the background only offsets the concentration uniformly and never the flux, and that footprint mode ignores the source values, exactly on the field model (numerical and analytic, all halo/mode classes); replays run three real calls per scenario with sign-changing sources and compare to 1e-10 (flux under a background change and footprint-mode independence bit-identically).",
+        note=_SOLVER_NOTE, design="4/C04"),
+    "C06": dict(technique=_SOLVER_TECH % "translate",
+        text="TLC checks, for every whole-cell shift including wrap-around and every tower cell, TranslateSource, TranslateTower, PointReflect (footprint = point reflection about the tower of the unit-source response) and Recentre (dispersion mode with a non-zero measurement point moves that cell to the domain centre) exactly on the field model; replays compare np.roll-ed real outputs on dx != dy grids with oblique anisotropic profiles.",
+        note=_SOLVER_NOTE, design="4/C06"),
+    "C07": dict(technique=_SOLVER_TECH % "symmetry",
+        text="TLC checks MirrorX, MirrorY (source mirrored, wind component negated) and Transpose (all per-axis quantities swapped) exactly on the field model; the Nyquist exemption set of the mirror identities is derived by the model (difference spectrum supported only on the +-nl/2 rows/columns) and used to filter the replays. Similarity scalings (lengths and K times 2^k; winds and K times 2^k) are replayed bit-identically on the real solver with power-of-two factors.",
+        note=_SOLVER_NOTE + " Scale factors other than powers of two are not claimed (int(halo/dx) may change under rounding); homogeneity of the principal square root is a property of numpy, not of the model.", design="4/C07"),
+    "C10": dict(technique=_SOLVER_TECH % "levels",
+        text="TLC enumerates every injective sequence of levels (all orders, with and without the top node) for nz <= 4 (5 thorough), footprint/dispersion, numerical/analytic, and checks SlotIsSingle, FullColumnSlice, LabelsAsGiven and NoSilentBroadcast on the exact model; each selection is replayed on the real solver: slot k bit-identical to the single-level solve and to the full-column slice, returned heights equal z[levels], scalar/array argument forms; mean_store and return events are validated against the specification's level bookkeeping.",
+        note=_SOLVER_NOTE + " Duplicated or out-of-range levels are outside the property.", design="4/C10"),
+    "C11": dict(technique=_SOLVER_TECH % "shape",
+        text="TLC enumerates grid sizes 2..5 (7 thorough) of both parities, halo None/0/commensurate/incommensurate, even and odd mode requests below/at/above the padded size, both modes, and checks ShapeOrError, ErrorsAreDeclared, LowPass and ClampEq on the exact model; the predicted outcome (error kind or exact shape) of every configuration is compared with the real solver, returned coordinates are compared with i*dx, j*dy bit-identically, low-pass behaviour through fft2 of real outputs, clamp equality bit-identically; recorded pad/clamp/spectrum/untruncate/crop/return shapes are validated against the specification.",
+        note=_SOLVER_NOTE + " The joint clamp (either axis too large resets both) is modelled as the code does it; the mixed case is not asserted either way.", design="4/C11"),
+})
+
 NOT_APPLICABLE = {
     "C01": "asymptotic numerical accuracy against an ODE boundary-value solution: no discrete state/transition content for a TLA+ model; needs a numerical differential oracle (different technique)",
     "C09": "real-valued identities of transcendental similarity formulas and floating-point arange rounding; nothing for TLC (integers only) to enumerate",
